@@ -2,6 +2,9 @@ From TFL Require Export Harness.Compare Model.PremadeKFL Model.PremadeCheck.
 (* tie of the initial-value theorems (Props/C03.v section G): separate case type and check, run by
    harness/props/c03_init.py; required here so that the build of this module also builds it *)
 From TFL Require Harness.H_C03Init.
+(* tie of the end-to-end theorems (Props/C03.v section H): model descriptions built from the config, run by
+   harness/props/c03_init.py; required here for the same reason *)
+From TFL Require Harness.H_C03E2E.
 Open Scope Q_scope.
 (* One premade model (tfl.premade.CalibratedLattice with all_vertices or
    kronecker_factored parameterization, or tfl.premade.CalibratedLinear) in ONE
